@@ -125,6 +125,12 @@ impl<'a> __Type<'a> {
                     .values()
                     .filter(|field| is_visible(ctx, &field.visible))
                     .filter(|field| {
+                        // a field whose type is hidden in this context would name a type that is
+                        // not part of the introspected schema
+                        self.visible_types
+                            .contains(registry::MetaTypeName::concrete_typename(&field.ty))
+                    })
+                    .filter(|field| {
                         (include_deprecated || !field.deprecation.is_deprecated())
                             && !field.name.starts_with("__")
                     })
@@ -207,6 +213,10 @@ impl<'a> __Type<'a> {
                         include_deprecated || !input_value.deprecation.is_deprecated()
                     })
                     .filter(|input_value| is_visible(ctx, &input_value.visible))
+                    .filter(|input_value| {
+                        self.visible_types
+                            .contains(registry::MetaTypeName::concrete_typename(&input_value.ty))
+                    })
                     .map(|input_value| __InputValue {
                         registry: self.registry,
                         visible_types: self.visible_types,
